@@ -136,7 +136,8 @@ CHECKS = {
              "order 2..12 symbolic); Lagrange interpolation of order k reproduces 1, x, ..., x^(k-1) for any distinct nodes in the "
              "first, a middle and the last interval; interpolation at any node returns the tabulated value (Lagrange and linear); "
              "linear interpolation is the piecewise-linear interpolant; outside [first, last] a ValueError with the date message is "
-             "raised and never a value.",
+             "raised and never a value; the real Ephem returns its nodes, keeps its frame label, and honours `ephem.order = k` / "
+             "`ephem.method = m` given before or after a first interpolation.",
         note="Trusted: z3; numpy object-dtype kernels. Bounded: binary search tables <= 8 (quick) / 16 (thorough) entries; "
              "reproduction orders 2..6 (quick) / 2..8 (thorough). Outside: centimetre accuracy for smooth orbits (analysis), "
              "bit-precise exactness in binary64, orders above the bound.",
@@ -149,7 +150,8 @@ CHECKS = {
              "g_l changed sign (1..2 quick / 3 thorough simultaneous listeners), in chronological order, and every prev is updated; "
              "one bisection step from an arbitrary bracket probes the midpoint and keeps a half bracket on which g still changes "
              "sign, and every explored exit of the real loop returns a labelled state inside the bracket; AOS iff rising, Desc Node "
-             "iff falling, MAX only above the horizon and not rising; the anomaly difference is wrapped into [-pi, pi) modulo 2 pi; "
+             "iff falling, MAX only above the horizon and not rising; the anomaly difference is wrapped into [-pi, pi) modulo 2 pi and AnomalyListener.check fires iff that "
+             "wrapped difference changes sign within 2 rad of the target (samples in [0, 2 pi), target anywhere); "
              "the iteration stream (samples + events between them) is chronological and contains every sample.",
         note="Trusted: z3; uninterpreted watched quantities (the statement is about any quantity). Timedelta halving exact "
              "(microsecond rounding outside). Outside: closed-form Keplerian event times, shadow geometry and its 0.01 s/0.5 s "
@@ -161,7 +163,8 @@ CHECKS = {
              "latitude in (-90,90), longitude, altitude, ellipsoid (a, 0<e<1) and every Earth-fixed target state that the station lies "
              "on the ellipsoid at the given height along the outward normal and is at rest, its axes are north/west/up, and range, "
              "azimuth (= -theta), elevation and range-rate equal an independently written WGS-84 ENU computation (range counted once "
-             "per leg on open and closed signal paths of 2..5 nodes). get_mask equals the piecewise-linear wrap-around interpolant for every table of bounded length "
+             "per leg on open and closed signal paths of 2..5 nodes), also for a station created under the name of an earlier station "
+             "located elsewhere. get_mask equals the piecewise-linear wrap-around interpolant for every table of bounded length "
              "(strictly increasing azimuths ending at 2 pi) and every real azimuth, all loop paths explored.",
         note="Trusted: z3; ENU/ellipsoid reference in the harness; exact cofactor inverse standing in for np.linalg.inv. Earth.r/Earth.e "
              "replaced by symbols. Bounded: mask tables of <= 3 (quick) / 5 (thorough) entries. Outside: motion with the Earth's "
@@ -191,7 +194,7 @@ CHECKS = {
              "= e^/e + (h^ x e^) sqrt(1-1/e^2) (the incoming asymptote; this last obligation is heavy and may be reported "
              "inconclusive in the quick tier); sso(a, e) -> i makes the first-order J2 node drift equal 2 pi/(365.256363004 d) and "
              "sso(a, i) recovers e; frozen-orbit eccentricity formula. Lambert, decidable parts only: with the time-of-flight "
-             "function uninterpreted the real _lambert returns only after a Newton step <= its tolerance (bounded number of "
+             "function uninterpreted the real _lambert returns only after a Newton step smaller than its tolerance in absolute value (bounded number of "
              "evaluations); for any y > 0 its velocities conserve energy and angular momentum, stay in the transfer plane and turn "
              "the way asked; _C, _S, _y, _F equal the universal-variable equation (z > 0, = 0, < 0).",
         note="Trusted: z3; the sun's right ascension, Earth constants and the reference body are symbols. Outside (declared, not "
